@@ -198,3 +198,6 @@ META = dict(
     assumptions=["Hexital-level timeframe is combined only with members that have no timeframe of their own (effective configuration = the Hexital's)"],
     explanation="each member's candles and readings are term-compared with a standalone twin for all candle values on every path",
 )
+
+# families added after the seeding rounds (kept next to the original bound so that MANIFEST / evidence stay current)
+META["bounds"] = dict(META["bounds"], quick=META["bounds"]["quick"] + "; added after the seeding rounds: " + "a guest member (name a proper prefix of its co-tenant's) recalculated / purged / removed before the last append; members registered after construction; only the members of a timeframe write on its candles")
